@@ -612,6 +612,42 @@ fn gen_op(r: &mut StdRng, sys: &Sys, xid: &mut u32) -> Value {
     }
 }
 
+/// Directed probe: an operator approval that is first granted for long and then shortened keeps its storage entry alive
+/// beyond the new expiry; once that has passed, nothing else (a live approval of the same token for somebody else,
+/// the entry still being readable) may let the former operator move or burn the token.
+fn lapse_script(r: &mut StdRng, sys: &Sys) -> Vec<Value> {
+    no_auth(&sys.e);
+    let id = pick_id(r, sys);
+    let owner = sys.owner_of(id);
+    if owner == "none" || owner == "?" {
+        return vec![];
+    }
+    let others: Vec<&str> = ACCTS.iter().copied().filter(|a| *a != owner).collect();
+    let opr = others[r.gen_range(0..others.len())];
+    let third = *pick(r, &others.iter().copied().filter(|a| *a != opr).collect::<Vec<_>>());
+    let now = (seq(&sys.e) - LBASE.with(|c| c.get())) as i64;
+    let mk = |op: &str, sp: &str, from: &str, to: &str, id: u32, until: i64, auth: &str, dt: i64| {
+        json!({"op": op, "sp": sp, "from": from, "to": to, "id": id, "n": 0, "until": until, "auth": [auth], "dt": dt})
+    };
+    let long = now + *pick(r, &[40i64, 1000, 100_000]);
+    let short = now + *pick(r, &[0i64, 1, 2]);
+    let mut v = vec![mk("approve_for_all", "none", &owner, opr, 0, long, &owner, 0),
+        mk("approve_for_all", "none", &owner, opr, 0, short, &owner, 0)];
+    match r.gen_range(0..3) {
+        0 => {}
+        1 => v.push(mk("approve", "none", &owner, third, id, long, &owner, 0)),
+        // the token-level approval is the one that was shortened, the operator approval of somebody else lives on
+        _ => {
+            v = vec![mk("approve", "none", &owner, opr, id, long, &owner, 0), mk("approve", "none", &owner, opr, id, short, &owner, 0),
+                mk("approve_for_all", "none", &owner, third, 0, long, &owner, 0)];
+        }
+    }
+    let last = if r.gen_bool(0.3) { "burn_from" } else { "transfer_from" };
+    let to = if last == "burn_from" { "none" } else { *pick(r, &[opr, third]) };
+    v.push(mk(last, opr, &owner, to, id, 0, opr, 3));
+    v
+}
+
 fn main() {
     match cli() {
         Mode::Exec { input, output } => {
@@ -670,8 +706,13 @@ fn main() {
                 let mut sys = Sys::new(fl, imp, min_temp, base);
                 t.reset(sys.reset_event());
                 let mut xid: u32 = 1_000_000 + r.gen_range(0..1000);
-                for _ in 0..len {
-                    let op = gen_op(&mut r, &sys, &mut xid);
+                let lapse_at = if r.gen_ratio(1, 3) { r.gen_range(2..12) } else { usize::MAX };
+                let mut script: Vec<Value> = vec![];
+                for k in 0..len {
+                    if k == lapse_at {
+                        script = lapse_script(&mut r, &sys);
+                    }
+                    let op = if script.is_empty() { gen_op(&mut r, &sys, &mut xid) } else { script.remove(0) };
                     let ev = sys.step(&op);
                     t.step(ev);
                 }
